@@ -109,7 +109,7 @@ ASSUMPTIONS = [
     "built from the same inputs (the donor inversion); the k inversions of a sequence share dataset, linear objects and Preloads object",
     "the reference is the repository's own inversion with the preloads argument omitted (the property is a relation between two runs of the code)",
 ]
-EXPLORER_OPTS = {"timeout_ms": 10000, "max_paths": 2000, "max_decisions": 4000}
+EXPLORER_OPTS = {"timeout_ms": 5000, "max_paths": 2000, "max_decisions": 4000}
 BUDGET_S = {"quick": 900, "thorough": 2300}
 
 ADD_TO_DIAG = 0.25          # dyadic, so that the exact-rational run and float64 agree bit for bit
@@ -513,6 +513,23 @@ def _tol(keys, concrete_tol):
     return {k: concrete_tol for k in keys if k.rsplit("|", 1)[-1] in CONCRETE_KEYS}
 
 
+DERIVED = ("mapped_reconstructed_data", "regularization_term")     # functions of the reconstruction (and of matrices checked before it)
+
+
+def _check_in_order(ctx, A, E, tol, known):
+    """one obligation per key, in observation order; once the reconstruction of an inversion is refuted, the quantities
+    derived from it (B s, s^T H s: the latter a quadratic 'differs somewhere' query that costs z3 minutes) are not queried
+    for that inversion - a counterexample for it is already on record"""
+    refuted = set()
+    for key in E:
+        prefix, name = key.rsplit("|", 1)
+        if name in DERIVED and prefix in refuted:
+            continue
+        ok = hx.check_all(ctx, A, E, tol=tol, known=known, only={key})
+        if not ok and name == "reconstruction":
+            refuted.add(prefix)
+
+
 def _inputs(ctx, g, noise_sym, box=None):
     inputs = {"d": V.real_array("d", (g["n"],))}
     if box is not None:     # only where a branch depends on the data (check_reconstruction): keeps float64 replay meaningful
@@ -543,7 +560,7 @@ def case_seq(ctx, geom, mix, wt, subsets, k, noise_sym=False, check=False, donor
             # unknown and that adds nothing to the finding -> not checked inside the recorded configurations
             if key.endswith("|regularization_term"):
                 del known[key], E[key]
-    hx.check_all(ctx, A, E, tol=None if noise_sym else _tol(E, CONCRETE_TOL), known=known)
+    _check_in_order(ctx, A, E, None if noise_sym else _tol(E, CONCRETE_TOL), known)
     hx.validate(ctx, body_seq, inputs, kw, {k_: v for k_, v in A.items() if not (noise_sym and k_.rsplit("|", 1)[-1] in VIA_UF)}, every=1)
 
 
@@ -557,7 +574,7 @@ def case_factory(ctx, geom, mix, check=False):
     known = None
     if "factory-preloads-none" in os.environ.get("VERIF_KNOWN", "").split(","):
         known = {k: {"factory-preloads-none": z3.BoolVal(True)} for k in E if "preloads=None|" in k}
-    hx.check_all(ctx, A, E, tol=_tol(E, 1e-9), known=known)
+    _check_in_order(ctx, A, E, _tol(E, 1e-9), known)
     hx.validate(ctx, body_factory, inputs, kw, A, every=1)
 
 
@@ -580,7 +597,9 @@ def _all_subsets():
     return out
 
 
-SLOW = {"timeout_ms": 40000}     # cases with a data-dependent branch / non-linear terms: the reachability twin must not time out on a loaded machine
+# cases with a data-dependent branch / non-linear terms (the engine retries `unknown` with up to 14x this timeout); on the
+# clean tree the branching cases have 2-3 paths - under a fault every differing inversion adds a fork, hence the path cap
+SLOW = {"timeout_ms": 12000, "max_paths": 24}
 
 
 def cases(tier):
